@@ -32,6 +32,7 @@ type HarnessCfg struct {
 	Params    map[string]int `json:"params"` // harness parameters read with vParam
 	Solver    string `json:"solver"` // primary solver for this harness (default cvc5-int)
 	SchedBudget int  `json:"sched_budget"` // explore all orders at the first N free scheduling choices of a path (0 = at all)
+	Stubs     map[string]string `json:"stubs"` // full name of an external/dependency function -> harness function that models it
 
 	stubs        map[string]*ssa.Function
 	growMonitors []func(ex *Exec, n *Term)
@@ -73,6 +74,17 @@ func Explore(P *Program, cfg *HarnessCfg, nWorkers int, solverKind string, timeo
 	if entry == nil {
 		res.Inconclusive = append(res.Inconclusive, fmt.Sprintf("harness %s.%s not found", cfg.Pkg, cfg.Entry))
 		return res
+	}
+	if len(cfg.Stubs) > 0 {
+		cfg.stubs = map[string]*ssa.Function{}
+		for name, model := range cfg.Stubs {
+			f := P.findEntry(cfg.Pkg, model)
+			if f == nil {
+				res.Inconclusive = append(res.Inconclusive, fmt.Sprintf("stub model %s.%s not found", cfg.Pkg, model))
+				return res
+			}
+			cfg.stubs[name] = f
+		}
 	}
 	if cfg.Unwind == 0 {
 		cfg.Unwind = 8
